@@ -206,15 +206,21 @@ def r3_accept_table(ck, F):
             elif alt.k == "agg" and alt.x.get("variant") == "Err":
                 out.append(("explicit", alt.a[0].show()))
             elif alt.k == "call" and alt.x["path"].endswith("::from_residual"):
-                br = [x for x in alt.walk() if x.k == "call" and x.x["path"].endswith("Try>::branch")]
-                inner = br[0].a[0] if br else None
-                st = inner.strip() if inner is not None else None
-                if st is not None and st.k == "call":
-                    out.append(("q", st.x["path"].rsplit("::", 1)[-1]))
-                elif inner is not None and depth < 4 and st.k in ("phi", "agg"):
-                    out += [x for x in classify(inner, depth + 1) if x[0] != "ok"]
-                else:
-                    out.append(("q", "?"))
+                # the residual may itself be a join (several `?` of a spliced helper funnelled into one exit)
+                for res in (flat_alts(alt.a[0]) if alt.a else [alt]):
+                    br = [x for x in res.walk() if x.k == "call" and x.x["path"].endswith("Try>::branch")]
+                    inner = br[0].a[0] if br else None
+                    st = inner.strip() if inner is not None else None
+                    if st is not None and st.k == "call" and st.x["path"].endswith("::from_residual") and depth < 4:
+                        out += [x for x in classify(st, depth + 1) if x[0] != "ok"]     # `?` on a value that itself came out of a `?`
+                    elif st is not None and st.k == "agg" and st.x.get("variant") == "Err" and depth < 4:
+                        out.append(("explicit", st.a[0].show()))
+                    elif st is not None and st.k == "call":
+                        out.append(("q", st.x["path"].rsplit("::", 1)[-1]))
+                    elif inner is not None and depth < 4 and st.k in ("phi", "agg"):
+                        out += [x for x in classify(inner, depth + 1) if x[0] != "ok"]
+                    else:
+                        out.append(("q", "?"))
             else:
                 out.append(("other", alt.show()[:80]))
         return out
